@@ -494,11 +494,13 @@ class Dict(dict, base.Symbolic, pg_typing.CustomTyping):
   def sym_hash(self) -> int:
     """Symbolic hashing."""
     return base.sym_hash(
-        (self.__class__,
+        # NOTE: symbolic equality does not tell a subclass of `pg.Dict` from
+        # `pg.Dict`, so the hash does not either.
+        (Dict,
          # Symbolic equality of dicts does not depend on the order of keys,
          # so the hash does not either.
          frozenset([(k, base.sym_hash(v)) for k, v in self.sym_items()
-                    if v != pg_typing.MISSING_VALUE])))
+                    if pg_typing.MISSING_VALUE != v])))
 
   def _sym_getattr(  # pytype: disable=signature-mismatch  # overriding-parameter-type-checks
       self, key: Union[str, int]) -> Any:
